@@ -113,8 +113,20 @@ func (ex *Exec) execDefer(s *ast.DeferStmt) {
 		ex.unsupported("deferred conversion at %s", ex.where(s))
 	}
 	if id, ok := unparen(s.Call.Fun).(*ast.Ident); ok {
-		if _, ok := info.Uses[id].(*types.Builtin); ok {
-			ex.unsupported("deferred builtin at %s", ex.where(s))
+		if b, ok := info.Uses[id].(*types.Builtin); ok {
+			switch b.Name() {
+			case "clear", "copy":
+			default:
+				ex.unsupported("deferred builtin %s at %s", b.Name(), ex.where(s))
+			}
+			// the arguments are evaluated now, the builtin runs at return
+			var vals []Value
+			for _, a := range s.Call.Args {
+				vals = append(vals, ex.eval(a))
+			}
+			fm := ex.frame()
+			fm.defers = append(fm.defers, deferredCall{nil, vals, s.Call})
+			return
 		}
 	}
 	if lit, ok := unparen(s.Call.Fun).(*ast.FuncLit); ok {
@@ -157,7 +169,19 @@ func (ex *Exec) runDefers() {
 		d := fm.defers[len(fm.defers)-1]
 		fm.defers = fm.defers[:len(fm.defers)-1]
 		if d.fobj == nil {
-			ex.callClosure(d.args[0].(ClosureV), d.at)
+			if cl, ok := d.args[0].(ClosureV); ok && len(d.args) == 1 {
+				if _, isLit := unparen(d.at.Fun).(*ast.FuncLit); isLit {
+					ex.callClosure(cl, d.at)
+					continue
+				}
+			}
+			// deferred builtin with its arguments fixed at the defer statement
+			ex.evalOverride = map[ast.Expr]Value{}
+			for i, a := range d.at.Args {
+				ex.evalOverride[a] = d.args[i]
+			}
+			ex.evalBuiltin(d.at, unparen(d.at.Fun).(*ast.Ident).Name)
+			ex.evalOverride = nil
 			continue
 		}
 		ex.doCall(d.fobj, d.args, d.at)
